@@ -120,6 +120,7 @@ class Tables:
         self.enums = {}     # name -> [ (variant, nfields, fieldnames or None) ]
         self.structs = {}   # name -> [fieldname, ...] (named) or int (tuple arity)
         self.impls = {}     # (file, line) -> (selftype, trait or None)
+        self.aliases = {}       # type alias name -> last ident of its target
         self.enum_decls = {}    # name -> [(file, variants)]
         self.struct_decls = {}  # name -> [(file, fieldnames | arity)]
         self._std()
@@ -196,6 +197,8 @@ class Tables:
                 if fm:
                     names.append(fm.group(1))
             self.struct_decls.setdefault(m.group(1), []).append((rel, names))
+        for m in re.finditer(r'\btype\s+([A-Za-z_]\w*)\s*(?:<[^=;]*>)?\s*=\s*([^;]+);', src):
+            self.aliases.setdefault(m.group(1), _last_ident(m.group(2)))
         # impl headers by line
         lines_off = [0]
         for ln in src.split('\n'):
